@@ -270,26 +270,11 @@ func c09Oracle(info *runInfo, res *verifsim.Result) {
 		if len(h.gens) > 1 && !strings.Contains(info.plan.Class, "+reinit") && !strings.Contains(info.plan.Class, "+read-fault") {
 			res.Violate("C09.alive", "redialled", "%s: the connection was re-established %d times although nothing but (in)valid messages arrived", ifn, len(h.gens)-1)
 		}
-		// every action delivered must have been read by the stop: a packet left in
-		// the socket queue means nobody is listening any more
-		delivered := 0
-		for i := range h.ev {
-			e := &h.ev[i]
-			if strings.HasPrefix(e.K, "act.") && e.If == ifn && e.Err == "" && (e.K == "act.rs" || e.K == "act.ra" || e.K == "act.ns" || e.K == "act.na") && (stopSeq == 0 || e.Seq < stopSeq) && h.deliveredAlive(e) {
-				delivered++
-			}
-		}
-		read := 0
-		for _, g := range h.gens {
-			for _, r := range g.rxs {
-				if stopSeq == 0 || r.seq < stopSeq {
-					read++
-				}
-			}
-		}
-		if read < delivered {
-			res.Violate("C09.alive", "deaf", "%s: %d messages were delivered before the stop at %s but only %d were ever read: the listener stopped reading", ifn, delivered, ms(stopT), read)
-		}
+		// every message delivered to a connection is read: a packet left in the
+		// socket queue means nobody is listening any more
+		h.unreadDeliveries(ifn, stopT, func() { res.Probe("connection_given_up_while_listener_busy") }, func(g *generation, delivered int, cutT int64) {
+			res.Violate("C09.alive", "deaf", "%s gen %d: %d messages were delivered before %s but only %d were ever read: the listener stopped reading", ifn, g.gen, delivered, ms(cutT), len(g.rxs))
+		})
 		// valid solicitations after invalid ones are answered (advertiser)
 		if !monitor {
 			c09Answered(info, res, h, ifn, stopT)
